@@ -421,7 +421,7 @@ def main(ctx):
     known = tuple(ctx.open_keys)
     ctx.pmap(corpus_worker, [[os.path.join(common.REPO, "example", "test", "macro.ok.nmfu"), os.path.join(common.REPO, "example", "gtfs-realtime.nmfu")]])
     n = 250 if quick else 3000
-    stop_at = time.time() + (75 if quick else 1500)
+    stop_at = time.time() + (75 if quick else 900)
     ctx.pmap(worker, [(ctx.seed * 100003 + i, n, known, stop_at, 4 if quick else 6) for i in range(common.NPROC)])
     ctx.rule = ("case = IR program with 1-4 macros (all parameter kinds, pass-through incl. same-named parameters, nesting <= 3) printed with macros "
                 "and hand-inlined; verdicts must agree and, if accepted, the two abstract machines must behave identically (events, terminal, outputs, "
